@@ -69,6 +69,7 @@ fn subsets() -> Vec<FamParams> {
             phases: 1 + (m % 3) as u8,
             n_inst: 1 + (m % 2) as u8,
             rows: 1 + (m % 3) as u8,
+            fx_tweak: 0,
         });
     }
     v
